@@ -15,6 +15,17 @@ CHECKS = {
    note="Trusted: clang constant evaluator, the embedded CODATA-2018/IUPAC reference tables. Not decided: uses of the "
         "constants at call sites other than through these tables (covered for the trajectory formats by C08)."),
 }
+ "C13": dict(cat="proof", ref="DESIGN.md section 4 C13",
+   technique="interval abstract interpretation with a symbolic bin count over the clang CFG (widening/narrowing, branch refinement) + canonical-form comparison of the binning/normalisation expressions",
+   text="Every subscript of the bin arrays in HistogramNew::Process and Histogram::ProcessData is proved to lie in [0,N-1] "
+        "on every CFG path for every N (symbolic), for every input value (float->index casts are unconstrained); the "
+        "bin-index, step and normalisation expressions are compared in canonical form with the property's formulas; "
+        "extremum seeds and the leave-before-write shape of the non-periodic branch are checked. Memory safety of the "
+        "bins and the formulas are decided for all inputs; hence proof-level for those clauses.",
+   note="Trusted: clang CFG, the interval domain (k*N+c bounds, N>=1; legacy class N>=2). Not decided: floating-point "
+        "rounding at exact bin edges, weight conservation as a numeric sum (follows from one write per accepted value), "
+        "callers' choice of ranges (csg_density, tabulatedpotential)."),
+}
 NA = {
 }
 m = {"version": 1, "setup_cmd": "./setup.sh",
